@@ -955,9 +955,16 @@ class RTDCWriter:
                 **self.compression_kwargs)
             line_offset = 0
         else:
-            # TODO: test whether fixed length is long enough!
-            # Resize the dataset
             txt_dset = group[name]
+            if (txt_dset.dtype.kind == "S"
+                    and txt_dset.dtype.itemsize < max_length):
+                # The fixed-length strings of the existing dataset are too
+                # short for the new lines (they would be truncated silently).
+                # Re-create the dataset with all lines.
+                old_lines = list(txt_dset)
+                del group[name]
+                return self.write_text(group, name, old_lines + lines_as_bytes)
+            # Resize the dataset
             line_offset = txt_dset.shape[0]
             txt_dset.resize(line_offset + lnum, axis=0)
 
